@@ -450,6 +450,10 @@ impl BloomFilter {
         }
 
         let num_words = num_longs as usize;
+        // a non-empty image carries the whole bit array: check before allocating it
+        if !is_empty && bytes.len() / 8 < num_words {
+            return Err(Error::insufficient_data("bit_array"));
+        }
         let mut bit_array = vec![0u64; num_words].into_boxed_slice();
         let num_bits_set;
 
@@ -468,19 +472,13 @@ impl BloomFilter {
 
             // Handle "dirty" state: 0xFFFFFFFFFFFFFFFF indicates bits need recounting
             const DIRTY_BITS_VALUE: u64 = 0xFFFFFFFFFFFFFFFF;
-            if raw_num_bits_set == DIRTY_BITS_VALUE {
-                num_bits_set = bit_array.iter().map(|w| w.count_ones() as u64).sum();
-            } else {
-                let raw_num_words_set = raw_num_bits_set.div_ceil(64) as usize;
-                if raw_num_words_set > num_words {
-                    return Err(Error::deserial(format!(
-                        "invalid num_bits_set: expected <= {}, got {}",
-                        num_words * 64,
-                        raw_num_bits_set
-                    )));
-                }
-                num_bits_set = raw_num_bits_set;
+            let counted: u64 = bit_array.iter().map(|w| w.count_ones() as u64).sum();
+            if raw_num_bits_set != DIRTY_BITS_VALUE && raw_num_bits_set != counted {
+                return Err(Error::deserial(format!(
+                    "invalid num_bits_set: the bit array holds {counted} set bits, got {raw_num_bits_set}"
+                )));
             }
+            num_bits_set = counted;
         }
 
         Ok(BloomFilter {
